@@ -213,9 +213,27 @@ def shape_id(sh):
 
 
 @st.composite
-def shape_graphs(hdraw, sh, max_ent=8):
+def shape_graphs(hdraw, sh, max_ent=8, mode=None):
     draw = _rnd(hdraw)
     k, m, ex = sh
+    if mode == "uncle":
+        # the entity that carries the expression is not a root: it has a sibling below a common supertype, and one operand of
+        # the expression is also a subtype of that sibling (it occurs at two places of the joined hierarchy, once as operand)
+        n = k + 3
+        names = draw.sample(NAMES, n)
+        supers = [[] for _ in range(n)]
+        for i in range(1, k + 1):
+            supers[i] = [0]
+        supers[0] = [k + 1]
+        supers[k + 2] = [k + 1]
+        j = _i(draw, 1, k)
+        supers[j] = [0, k + 2]
+        order = draw.sample(range(1, k + 1), k)
+        expr = _shape_expr(ex, [names[order[i]] for i in range(m)])
+        d = _finish(draw, names, supers, fixed_expr=expr, p_expr=50)
+        d["tags"]["kind"] = "shape-uncle"
+        d["tags"]["shape"] = shape_id(sh)
+        return d
     n = _i(draw, k + 1, max_ent)
     names = draw.sample(NAMES, n)
     supers = [[] for _ in range(n)]
